@@ -915,6 +915,7 @@ def engine_ct(prop, tier, seed, spec):
             agg.inconclusive.append("%s %s: traced window does not contain %s" % (cfg, op, need))
             continue
         agg.classes["traces/%s/%s" % (cfg, op)] = len(traces)
+        agg.classes["prologue-reexecutions-removed(scheduler noise)"] = agg.classes.get("prologue-reexecutions-removed(scheduler noise)", 0) + sum(t.get("prologue_reexecutions_removed", 0) for t in traces.values())
         agg.classes["max/trace-instructions/%s" % op] = max(agg.classes.get("max/trace-instructions/%s" % op, 0), len(ref["pcs"]))
         agg.classes["max/trace-memops/%s" % op] = max(agg.classes.get("max/trace-memops/%s" % op, 0), len(ref["mem"]))
         if len(agg.samples) < 8:
@@ -936,20 +937,28 @@ def engine_ct(prop, tier, seed, spec):
             k0, a0, b0, _, _ = lst[0]
             repro = 1
             fresh_ref = None
+
+            def dsig(x):
+                if x.get("kind") == "control-flow":
+                    return ("control-flow", x.get("index"), x.get("a"), x.get("b"))
+                return (x.get("kind"), x.get("index"), x.get("at"))  # raw stack/heap addresses vary from process to process
             for _ in range(2):
                 t1 = cttrace.trace(binp, [op, a0.hex(), b0.hex(), pub.hex()])
                 t2 = cttrace.trace(binp, [op, a.hex(), b.hex(), pub.hex()])
-                if cttrace.compare(binp, t1, t2) is not None:
-                    repro += 1
-                else:
+                d2 = cttrace.compare(binp, t1, t2)
+                if d2 is None:
                     fresh_ref = t1
+                elif dsig(d2) == dsig(d):
+                    repro += 1  # the same divergence at the same place: secrets, not noise, steer it
+                else:
+                    repro += 0.5  # a divergence elsewhere: noise in at least one of the runs
             if repro == 1:
                 agg.classes["noisy-first-trace-pairs(re-traced twice, equivalent)"] = agg.classes.get("noisy-first-trace-pairs(re-traced twice, equivalent)", 0) + 1
                 if fresh_ref is not None and cttrace.compare(binp, fresh_ref, traces[k]) is None:
                     ref = fresh_ref  # the stored reference trace was the noisy one
                 continue
             if repro < 3:
-                agg.inconclusive.append("%s %s secret #%d: divergence (%s) reproduced only %d of 3 times" % (cfg, op, k, d.get("kind"), repro))
+                agg.inconclusive.append("%s %s secret #%d: divergence (%s) did not reproduce identically in both fresh trace pairs (score %s of 3)" % (cfg, op, k, d.get("kind"), repro))
                 continue
             agg.violations.append({"property": prop, "sub": "trace-equality", "config": cfg, "sig": "ct/%s/%s" % (op, d.get("kind")),
                                    "what": "%s: executions differing only in the secret diverge (%s): %s" % (op, d.get("kind"), json.dumps(d)[:400]),
